@@ -7,9 +7,47 @@ warnings.simplefilter('ignore')
 req = json.loads(sys.argv[1])
 meta = req.get('meta') or {}
 out = {'replayable': False, 'reproduced': None}
+
+
+def direct_check(fname):
+    """R1 for the three checking functions themselves: the REAL function on boundary / wrong-type values against the documented meaning
+    (None: accepted iff allow_nonetype; otherwise the exact type - bool / int / float - and lower <= val <= upper)"""
+    import dfols.params as P
+    import numpy as np
+    f = getattr(P, fname)
+    vals = [None, True, False, 0, 1, 2, -1, 0.0, 1.0, 0.5, -3.5, 1e6, float('nan'), float('inf'), 'x', '', (), [1], np.float64(1.0), np.int64(1), np.bool_(True), np.array([1.0, 2.0])]
+    res = {'replayable': True, 'reproduced': False, 'tried': 0}
+    for v in vals:
+        for none_ok in (False, True):
+            for lo, hi in ((None, None), (0, 1), (0.0, 1.0), (1, None), (None, 0)):
+                if fname == 'check_bool' and (lo, hi) != (None, None):
+                    continue
+                try:
+                    got = f(v, allow_nonetype=none_ok) if fname == 'check_bool' else f(v, lower=lo, upper=hi, allow_nonetype=none_ok)
+                    how = repr(got)
+                except Exception as ex:
+                    got, how = 'raised', 'raised %s' % type(ex).__name__
+                res['tried'] += 1
+                if v is None:
+                    want = none_ok
+                elif fname == 'check_bool':
+                    want = isinstance(v, bool)
+                else:
+                    ty = int if fname == 'check_integer' else float
+                    want = isinstance(v, ty) and (lo is None or v >= lo) and (hi is None or v <= hi)
+                if got == 'raised' or bool(got) != bool(want):
+                    res.update(reproduced=True, inputs={'function': 'dfols.params.' + fname, 'val': repr(v), 'lower': lo, 'upper': hi, 'allow_nonetype': none_ok},
+                               observed='documented meaning gives %r, the function %s' % (bool(want), how))
+                    return res
+    return res
+
+
 try:
     key, doc = meta.get('param_key'), meta.get('documented')
-    if key and doc:
+    fn = next((f for f in ('check_bool', 'check_integer', 'check_float') if (req.get('obligation') or '').startswith(f + '/')), None)
+    if fn and not key:
+        out = direct_check(fn)
+    elif key and doc:
         import dfols
         out = {'replayable': True, 'reproduced': False, 'tried': 0}
         n, npt = 2, 3
